@@ -112,8 +112,17 @@ def v1(e: Engine, rep: Report):
             want = BUFFER_BOUNDS.get(f.name)
             ok_size = bound is not None
             if want is not None:
-                ok_size = isinstance(bound, ast.Constant) and \
-                    bound.value == want
+                bv = bound
+                if isinstance(bv, (ast.Name, ast.Attribute)):
+                    # a named constant (module / class level)
+                    nm = bv.id if isinstance(bv, ast.Name) else bv.attr
+                    cand = m.globals.get(nm)
+                    if cand is None and f.cls is not None:
+                        _, cand = e.p.lookup_class_attr(f.cls.qname, nm)
+                    if cand is not None:
+                        bv = cand
+                ok_size = isinstance(bv, ast.Constant) and \
+                    bv.value == want
             elif bound is not None:
                 # v2: the size is the declared / fixed length parameter
                 ok_size = isinstance(bound, ast.Name) and \
